@@ -50,7 +50,38 @@ def pairs(d):
               fmt=None, default=True)
     D2 = dict(name="shared-object", schema=shared, store={}, remote={}, instances=[{"z": 1, "a": {"k": None}, "z2": 2}], refs=[],
               fmt=None, default=True)
-    return [[A, B], [B, A], [A3, B3, C], [rec, rec2], [A, rec], [D1, D2]]
+    # the one URL every resolver's store holds from the start: the draft's own metaschema.  One member overrides what
+    # its store serves for it (as one does for an adjusted metaschema), one replaces it differently, one leaves it alone
+    meta_url = cls_meta_url(d)
+
+    def meta_member(name, override, inst):
+        return dict(name=name, schema={"properties": {"m": {"$ref": meta_url + "#/properties/maxLength"},
+                                                      "n": {"$ref": meta_url + "#/properties/maxLength"}}},
+                    store=({meta_url: {"properties": {"maxLength": override}}} if override is not None else {}), remote={},
+                    instances=[inst], refs=[], fmt=None)
+    M1 = meta_member("meta-override-1", {"type": "string"}, {"m": 3, "n": "x"})
+    M2 = meta_member("meta-override-2", {"type": "null"}, {"m": "x", "n": None})
+    M3 = meta_member("meta-default", None, {"m": "x", "n": -1})
+    return [[A, B], [B, A], [A3, B3, C], [rec, rec2], [A, rec], [D1, D2], [M1, M3], [M3, M2], [M2, M1]]
+
+
+def cls_meta_url(d):
+    cls = draft_classes()[d]
+    return cls.ID_OF(cls.META_SCHEMA).rstrip("#")
+
+
+def _solo_fresh(job):
+    d, gi, mi = job
+    return solo(d, pairs(d)[gi][mi])
+
+
+def fresh_solos(jobs):
+    """'running alone': each member's errors computed in a process of its own (spawned, one task per process), so that
+    nothing another validator left behind anywhere in the process can be part of the baseline"""
+    import multiprocessing
+    from concurrent.futures import ProcessPoolExecutor
+    with ProcessPoolExecutor(max_workers=16, mp_context=multiprocessing.get_context("spawn"), max_tasks_per_child=1) as ex:
+        return list(ex.map(_solo_fresh, jobs))
 
 
 def checker_for(js, kind):
@@ -179,7 +210,7 @@ def main(args):
     ck.rule = ("groups of 2-3 validator objects per draft whose schemas collide on every key a shared cache could use (same base "
                "URI, same $ref strings designating different definitions, same nested id and relative reference, same "
                "remote URL served by different stores, same pattern, same format name with different checker functions, "
-               "recursive schemas); the script of each member's iteration is measured on the real code, TLC enumerates ALL "
+               "recursive schemas, the draft's metaschema URL overridden differently in each member's store); each member's errors when running alone are computed in a freshly spawned process of its own; the script of each member's iteration is measured on the real code, TLC enumerates ALL "
                "interleavings of next() steps (MC_Interleave: invariant Independent; negative control SharedStack must be "
                "violated), and every maximal schedule is replayed on real iterators and compared with the solo runs; plus "
                "event-level thread schedules: TLC enumerates every schedule of resolver events with <= %d preemptions (MC_Sched) and each is replayed on real threads whose resolvers block before every event until granted the turn; and unscheduled threaded runs (1 microsecond switch interval) compared with the solo runs." % (1 if quick else 2) + " Non-trivial: a "
@@ -222,12 +253,14 @@ def main(args):
         ck.notes["schedules_replayed_of"] = len(r.exports)
     else:
         ck.exhaustive = True
-    solos = {}
+    per_draft = len(pairs(DRAFTS[0]))
+    jobs = [(d, gi % per_draft, mi) for gi, (d, grp, table) in enumerate(meta) for mi in range(len(grp))]
+    fresh = dict(zip([(gi, mi) for gi, (d, grp, table) in enumerate(meta) for mi in range(len(grp))], fresh_solos(jobs)))
+    solos = {gi: [fresh[(gi, mi)] for mi in range(len(grp))] for gi, (d, grp, table) in enumerate(meta)}
+    ck.notes["solo_baselines"] = "%d members, each run alone in a freshly spawned process" % len(jobs)
     for ex in exports:
         gi = ex["g"] - 1
         d, grp, table = meta[gi]
-        if gi not in solos:
-            solos[gi] = [solo(d, m) for m in grp]
         vals = [build(d, m, real=True) for m in grp]
         gens = [v.iter_errors(copy.deepcopy(m["instances"][0])) for (v, _), m in zip(vals, grp)]
         got = [[] for _ in grp]
